@@ -94,6 +94,17 @@ def walk_leaves(doc):
         yield it["leaf"], "i", last, "bibitem"
 
 
+def count_inlines(doc, t):
+    """unit index (-1 = before the first unit) -> number of inline items of kind `t` (items without
+    a leaf, such as the constant footnote "fnc", are not seen by walk_leaves)"""
+    out = {}
+    for ui, blocks in [(-1, doc.get("pre", []))] + [(i, u.get("blocks", [])) for i, u in enumerate(doc.get("units", []))]:
+        for b in blocks:
+            if b["k"] == "par":
+                out[ui] = out.get(ui, 0) + sum(1 for it in b["items"] if it["t"] == t)
+    return out
+
+
 def _block_leaves(b):
     k = b["k"]
     if k == "par":
